@@ -223,3 +223,66 @@ def same_class_union_serialisation(out, prop):
                 out.violation(f'{prop}:same-class-union-serialisation', f'a dataclass with u: {U!r} and us: List[...] holding {vals!r} serialises to {d!r}; expected u={want[0]!r}, us={want!r}',
                               {'union': repr(U)})
     return n
+
+
+def scalar_subclass_family(out, prop):
+    """Targets that are SUBCLASSES of the scalar types (class MyStr(str), MyBytes(bytes), MyInt(int), MyFloat(float)): they read
+    what their base type reads -- never a sequence of elements -- and return an instance of the subclass holding the base's value;
+    in every embedding context."""
+    import pane
+    from pane.errors import ConvertError
+    n = 0
+
+    class MyStr(str):
+        pass
+
+    class MyBytes(bytes):
+        pass
+
+    class MyInt(int):
+        pass
+
+    class MyFloat(float):
+        pass
+    table = [
+        (MyStr, str, ['abc', '', 'ü'], [['a', 'b'], ('a',), 5, b'ab', None, {'a': 1}, [], 1.5]),
+        (MyBytes, bytes, [b'ab', bytearray(b'q'), b''], [[1, 2], 'x', 5, (1,), None, []]),
+        (MyInt, int, [5, True, 0], ['5', 2.5, [5], None, b'5']),
+        (MyFloat, float, [1.5, 2, True], ['1.5', [1.5], None, 1j]),
+    ]
+    with warnings.catch_warnings():
+        warnings.simplefilter('ignore')
+        for sub, base, goods, bads in table:
+            class Holder(pane.PaneBase):
+                f: sub
+            contexts = [('top', sub, lambda v: v, lambda r: r), ('list element', t.List[sub], lambda v: [v], lambda r: r[0]),
+                        ('mapping value', t.Dict[str, sub], lambda v: {'k': v}, lambda r: r['k']), ('optional', t.Optional[sub], lambda v: v, lambda r: r),
+                        ('dataclass field', Holder, lambda v: {'f': v}, lambda r: r.f), ('union member', t.Union[sub, t.List[int]], lambda v: v, lambda r: r)]
+            for label, ty, wrap, unwrap in contexts:
+                for v in goods:
+                    n += 1
+                    try:
+                        r = unwrap(pane.from_data(wrap(v), ty))
+                    except Exception as e:
+                        out.violation(f'{prop}:scalar-subclass:rejects-base-value', f'{label}: from_data({wrap(v)!r}, {ty!r}) raised {type(e).__name__}; {sub.__name__} is a {base.__name__} '
+                                      f'and {base.__name__} reads {v!r}', {'target': sub.__name__, 'context': label, 'value': repr(v)})
+                        continue
+                    if type(r) is not sub or base(r) != base(v):
+                        out.violation(f'{prop}:scalar-subclass:wrong-image', f'{label}: from_data({wrap(v)!r}, {ty!r}) gave {r!r} of class {type(r).__name__}, expected {sub.__name__}({base(v)!r})',
+                                      {'target': sub.__name__, 'context': label, 'value': repr(v)})
+                for v in bads:
+                    if label in ('optional',) and v is None:
+                        continue
+                    if label == 'union member' and isinstance(v, (list, tuple)) and all(type(e) is int for e in v):
+                        continue
+                    n += 1
+                    try:
+                        r = pane.from_data(wrap(v), ty)
+                    except ConvertError:
+                        continue
+                    except Exception as e:
+                        out.violation(f'{prop}:scalar-subclass:{type(e).__name__}', f'{label}: from_data({wrap(v)!r}, {ty!r}) raised {type(e).__name__}: {e}', {'target': sub.__name__})
+                        continue
+                    out.violation(f'{prop}:scalar-subclass:cross-kind-accepted', f'{label}: from_data({wrap(v)!r}, {ty!r}) = {r!r}: {base.__name__} does not read a '
+                                  f'{type(v).__name__}, so {sub.__name__} must not either', {'target': sub.__name__, 'context': label, 'value': repr(v)})
+    return n
